@@ -5,6 +5,8 @@ import ZCV.Lemmas.DischargeElab
 import ZCV.Lemmas.DischargeExamples
 import ZCV.Props.C09
 import ZCV.Props.C10
+import ZCV.Lemmas.ImportOvFree
+import ZCV.Lemmas.ImportOvEx
 /-!
 C14 — command-line overrides act like editing the addressed keys in the text.
 
@@ -283,7 +285,7 @@ theorem C14_bad_key_is_conversion_error (conv : Conv) (s : Schema) (items : List
                      tag := "override key", value := some k }) := by
   unfold loadTreeOv bagOf
   rw [mkBag_eq_fold, List.foldlM_cons]
-  simp only [mkBagStep, h]
+  simp only [Conf.mkBagStep, h]
   rfl
 
 /-- when the edit is possible, an error of the load with overrides IS the error of the edited text -/
@@ -536,5 +538,277 @@ example : ∃ S, Elab.elabSchema Elab.Example.env 1 Elab.Example.doc = .ok S ∧
   simp only [List.mapM_nil, pure, Except.pure, Except.ok.injEq] at h
   subst h
   intro o ho; cases ho
+
+end ZCV.Props.C14
+
+/-! ## overrides for texts WITH `%import` lines (C14 with C12)
+
+`editI` (`ZCV/Spec/EditImport.lean`) is `edit` applied to the top-level items of a text with `%import` lines: the `%import`
+lines stay where they are, the lines supplied for top-level keys go to the end of the text, and the key type of a
+section the edit descends into is looked up in the schema `S` THE LOAD STARTS WITH — as the code does: the option bags are
+cooked before the text is read and keep that schema (`OptionBag.schema`), while `%import` replaces the loader's schema
+by a derived copy.  Consequences, all covered by the theorem below:
+
+* a top-level key override: `%import` never changes the key type of the document — the edit is the edit of C14;
+* a path into a section of a type that `S` knows: the edit of C14, whatever the text imports before or after;
+* a path into a section whose type is defined by a component that THIS load imports: `S` does not know the type, the edit
+  is impossible (`Reject.unknownType`) and the load is rejected, although the text edited by hand is accepted
+  (`C14_override_into_imported_type_counterexample`; known finding `C14-override-into-imported-type`). -/
+
+namespace ZCV.Props.C14
+open ZCV ZCV.Cfg ZCV.Conf
+
+/-- **Overrides act like the edit, for TEXT with `%import` lines** (supplied lines spelled with the normalised key; no
+    assumption on key types).  For every text (lines, `%define`s, `%include`s of any depth, `%import`s) that meets no
+    `%import` inside a section and whose imports keep the schema of the load well-formed (`importsOK`), and every list of
+    specifiers whose section-selecting components are basic keys: the configuration returned by
+    `loadConfigFile(schema, text, overrides=specs)` is the value `denoteI` (C12: every section judged by the schema in
+    force at its position) gives the top-level items of the text EDITED as the (split) specifiers ask, against the
+    schema `S` the load starts with; and there is none iff a specifier is refused, the parser rejects the text, the edit
+    is impossible, or the edited items do not conform. -/
+theorem C14_text_override_eq_editNorm_imports (conv : Conv) (env : Env) (pkgs : Str → Pkg) (S : Schema) (url : Option Str)
+    (lines : List Str) (specs : List Str)
+    (htop : importsAtTop env url lines)
+    (hok : ∀ tops, treeOfI env url lines = .ok tops → importsOK pkgs S tops = true)
+    (hovs : ∀ ovs, specs.mapM addOption = .ok ovs → OvsOK ovs) :
+    (load conv env pkgs S url lines specs).toOption.map (·.value) =
+      (specs.mapM addOption).toOption.bind fun ovs =>
+        (treeOfI env url lines).toOption.bind fun tops =>
+          (editNormI conv S tops ovs).toOption.bind (denoteI conv S pkgs) :=
+  load_ov_eq_denoteI conv env pkgs S url lines specs false (fun h => by cases h) htop hok hovs
+
+/-- **Overrides act like the edit BY HAND, for TEXT with `%import` lines** (supplied lines carry the key as typed on the
+    command line).  Same statement for `editI`, under the hypothesis that the key types of the schema the load STARTS
+    with are idempotent (`KeyIdemOn conv S`; true of the stock key types — only sections of types `S` knows can be
+    addressed, so nothing is asked of the key types of imported components). -/
+theorem C14_text_override_eq_edit_imports (conv : Conv) (env : Env) (pkgs : Str → Pkg) (S : Schema) (url : Option Str)
+    (lines : List Str) (specs : List Str)
+    (hidem : KeyIdemOn conv S)
+    (htop : importsAtTop env url lines)
+    (hok : ∀ tops, treeOfI env url lines = .ok tops → importsOK pkgs S tops = true)
+    (hovs : ∀ ovs, specs.mapM addOption = .ok ovs → OvsOK ovs) :
+    (load conv env pkgs S url lines specs).toOption.map (·.value) =
+      (specs.mapM addOption).toOption.bind fun ovs =>
+        (treeOfI env url lines).toOption.bind fun tops =>
+          (editI conv S tops ovs).toOption.bind (denoteI conv S pkgs) :=
+  load_ov_eq_denoteI conv env pkgs S url lines specs true (fun _ => hidem) htop hok hovs
+
+/-- both directions in words: the load with overrides is rejected iff a specifier is refused, or the parser rejects the
+    text, or the edit is impossible, or the edited items do not conform -/
+theorem C14_imports_rejected_iff (conv : Conv) (env : Env) (pkgs : Str → Pkg) (S : Schema) (url : Option Str)
+    (lines : List Str) (specs : List Str)
+    (hidem : KeyIdemOn conv S)
+    (htop : importsAtTop env url lines)
+    (hok : ∀ tops, treeOfI env url lines = .ok tops → importsOK pkgs S tops = true)
+    (hovs : ∀ ovs, specs.mapM addOption = .ok ovs → OvsOK ovs) :
+    (∃ e, load conv env pkgs S url lines specs = .error e) ↔
+      ((∃ e, specs.mapM addOption = .error e) ∨ (∃ e, treeOfI env url lines = .error e) ∨
+       ∃ ovs tops, specs.mapM addOption = .ok ovs ∧ treeOfI env url lines = .ok tops ∧
+         ((∃ r, editI conv S tops ovs = .error r) ∨
+          ∃ tops', editI conv S tops ovs = .ok tops' ∧ conformsI conv S pkgs tops' = false)) := by
+  have h := C14_text_override_eq_edit_imports conv env pkgs S url lines specs hidem htop hok hovs
+  cases hsp : specs.mapM addOption with
+  | error e1 =>
+    rw [hsp] at h
+    constructor
+    · intro _; exact .inl ⟨e1, rfl⟩
+    · intro _
+      cases hl : load conv env pkgs S url lines specs with
+      | error e => exact ⟨e, rfl⟩
+      | ok r => rw [hl] at h; cases h
+  | ok ovs =>
+    rw [hsp] at h
+    simp only [Cfg.toOption_ok, Option.bind_some] at h
+    cases ht : treeOfI env url lines with
+    | error e2 =>
+      rw [ht] at h
+      constructor
+      · intro _; exact .inr (.inl ⟨e2, rfl⟩)
+      · intro _
+        cases hl : load conv env pkgs S url lines specs with
+        | error e => exact ⟨e, rfl⟩
+        | ok r => rw [hl] at h; cases h
+    | ok tops =>
+      rw [ht] at h
+      simp only [Cfg.toOption_ok, Option.bind_some] at h
+      cases hed : editI conv S tops ovs with
+      | error r =>
+        rw [hed] at h
+        constructor
+        · intro _; exact .inr (.inr ⟨ovs, tops, rfl, rfl, .inl ⟨r, hed⟩⟩)
+        · intro _
+          cases hl : load conv env pkgs S url lines specs with
+          | error e => exact ⟨e, rfl⟩
+          | ok r => rw [hl] at h; cases h
+      | ok tops' =>
+        rw [hed] at h
+        simp only [Cfg.toOption_ok, Option.bind_some] at h
+        constructor
+        · rintro ⟨e, he⟩
+          rw [he] at h
+          refine .inr (.inr ⟨ovs, tops, rfl, rfl, .inr ⟨tops', hed, ?_⟩⟩)
+          unfold conformsI
+          rw [← h]
+          rfl
+        · rintro (⟨e, he⟩ | ⟨e, he⟩ | ⟨ovs2, tops2, h1, h2, h3⟩)
+          · cases he
+          · cases he
+          · cases h1
+            cases h2
+            rcases h3 with ⟨r, hr⟩ | ⟨tops2', h4, h5⟩
+            · rw [hed] at hr; cases hr
+            · rw [hed] at h4
+              cases h4
+              cases hl : load conv env pkgs S url lines specs with
+              | error e => exact ⟨e, rfl⟩
+              | ok r =>
+                rw [hl] at h
+                unfold conformsI at h5
+                rw [← h] at h5
+                cases h5
+
+/-- **The theorem for texts with `%import` lines specialises to `C14_text_override_eq_edit'`**: on a text without
+    `%import` lines (here and in what it can include) `treeOfI` is `treeOf`, `editI` is `edit`, `denoteI` is `denote`, and
+    `denote` is what `loadTree` returns.  (The hypothesis `hkeys` of the old statement is not needed.) -/
+theorem C14_text_override_eq_edit_from_imports (conv : Conv) (env : Env) (pkgs : Str → Pkg) (s : Schema) (url : Option Str)
+    (lines : List Str) (specs : List Str)
+    (hs : schemaOK s = true) (hidem : KeyIdemOn conv s)
+    (hni : ∀ l ∈ lines, NoImportLine l) (hres : ∀ u ls, env.res u = some ls → ∀ l ∈ ls, NoImportLine l)
+    (hovs : ∀ ovs, specs.mapM addOption = .ok ovs → OvsOK ovs) :
+    (load conv env pkgs s url lines specs).toOption.map (·.value) =
+      (specs.mapM addOption).toOption.bind fun ovs =>
+        (treeOf env url lines).toOption.bind fun items =>
+          (edit conv s items ovs).toOption.bind fun items' => (loadTree conv s items').toOption := by
+  obtain ⟨hfree, htop⟩ := treeOfI_import_free env url lines hni hres
+  have hok : ∀ tops, treeOfI env url lines = .ok tops → importsOK pkgs s tops = true := by
+    intro tops ht
+    rw [ht] at hfree
+    cases hT : treeOf env url lines with
+    | error e => rw [hT] at hfree; cases hfree
+    | ok items =>
+      rw [hT] at hfree
+      simp only [Cfg.toOption_ok, Option.map_some, Option.some.injEq] at hfree
+      subst hfree
+      rw [importsOK_items]
+      exact hs
+  rw [C14_text_override_eq_edit_imports conv env pkgs s url lines specs hidem htop hok hovs]
+  cases hsp : specs.mapM addOption with
+  | error e => rfl
+  | ok ovs =>
+    simp only [Cfg.toOption_ok, Option.bind_some]
+    cases hT : treeOf env url lines with
+    | error e =>
+      rw [hT] at hfree
+      rw [hfree]
+      rfl
+    | ok items =>
+      rw [hT] at hfree
+      simp only [Cfg.toOption_ok, Option.map_some] at hfree
+      have hTI := Cfg.toOption_eq_some.mp hfree
+      have hl : lowItems items = true := by
+        have := treeOfI_low env url lines _ hTI
+        rw [lowTops_items] at this
+        exact this
+      rw [hfree]
+      simp only [Cfg.toOption_ok, Option.bind_some]
+      unfold editI edit
+      rw [editBodyI_items]
+      cases hed : editBody conv s true s.top.keytype items ovs with
+      | error r => rfl
+      | ok items' =>
+        have hl' := lowItems_editBody conv s true s.top.keytype items ovs items' hl hed
+        show denoteI conv s pkgs (items'.map .item) = (loadTree conv s items').toOption
+        rw [docHandlersI_items.C12_denoteI_free conv pkgs s items' hs hl',
+          loadTree_eq_denote conv s items' hs (tyCanon_of_low s hs items' hl')]
+
+/-- **The override that the code refuses.**  In the world of `ZCV/Lemmas/ImportOvEx.lean` (schema with an abstract type,
+    package `p` whose component defines the implementer `leak` with a key `k`), for the text
+    `%import p` / `<leak a>` / `k 1` / `</leak>` / `<st b>` / `k 1` / `</st>`:
+    the load with the override `a/k=2` — a path into the section `a`, whose type `leak` the text itself imports — is
+    REJECTED (the edit against the schema the load starts with is impossible: `Reject.unknownType`), whereas the text
+    edited by hand (`k 2` in section `a`), loaded without overrides, is ACCEPTED.  So "overrides = editing the addressed
+    keys" fails on the pinned code for such paths (known finding `C14-override-into-imported-type`; the library's own
+    test suite pins the rejection).  The behaviour depends on the loader's history: an `ExtendedConfigLoader` that is
+    used AGAIN after a load that imported `p` holds the extended (private) schema when it cooks the options, and accepts
+    the same load; `loadConfigFile` makes a fresh loader for every load. -/
+theorem C14_override_into_imported_type_counterexample :
+    (∀ r, load ExOv.conv ExOv.env ExOv.pkgs ExOv.schema none (ExOv.lines '1') ExOv.specsBad ≠ .ok r) ∧
+    (∃ r, load ExOv.conv ExOv.env ExOv.pkgs ExOv.schema none (ExOv.lines '2') [] = .ok r) ∧
+    editI ExOv.conv ExOv.schema (ExOv.tops '1') ExOv.ovsBad = .error (.unknownType "leak".toList) := by
+  refine ⟨?_, ?_, ExOv.edit_bad⟩
+  · intro r hr
+    have h := C14_text_override_eq_edit_imports ExOv.conv ExOv.env ExOv.pkgs ExOv.schema none (ExOv.lines '1') ExOv.specsBad
+      ExOv.idem ExOv.atTop1 ExOv.ok1 ExOv.ovsBad_ok
+    rw [hr, ExOv.split_bad, ExOv.tree1] at h
+    simp only [Cfg.toOption_ok, Option.map_some, Option.bind_some] at h
+    rw [ExOv.edit_bad] at h
+    cases h
+  · have h := C14_text_override_eq_edit_imports ExOv.conv ExOv.env ExOv.pkgs ExOv.schema none (ExOv.lines '2') []
+      ExOv.idem ExOv.atTop2 ExOv.ok2 (by
+        intro ovs h
+        simp only [List.mapM_nil, pure, Except.pure, Except.ok.injEq] at h
+        subst h
+        intro o ho; cases ho)
+    rw [ExOv.tree2] at h
+    simp only [List.mapM_nil, pure, Except.pure, Cfg.toOption_ok, Option.bind_some] at h
+    rw [show editI ExOv.conv ExOv.schema (ExOv.tops '2') [] = .ok (ExOv.tops '2') from
+      editBodyI_nil ExOv.conv ExOv.schema true (ExOv.tops '2')] at h
+    simp only [Cfg.toOption_ok, Option.bind_some] at h
+    cases hl : load ExOv.conv ExOv.env ExOv.pkgs ExOv.schema none (ExOv.lines '2') [] with
+    | ok r => exact ⟨r, rfl⟩
+    | error e =>
+      rw [hl] at h
+      have hc := ExOv.denote_tops2
+      unfold conformsI at hc
+      rw [← h] at hc
+      cases hc
+
+/-- **non-vacuity**: a text with a `%import` line and a section of the imported type, loaded with an override into a
+    section of a static type and a top-level key override: the hypotheses of `C14_text_override_eq_edit_imports` hold, the
+    edit is possible, and the theorem yields the configuration — `k` of section `b` and `plain` carry the override
+    values, section `a` of the imported type is untouched -/
+example : (load ExOv.conv ExOv.env ExOv.pkgs ExOv.schema none (ExOv.lines '1') ExOv.specsGood).toOption.map (·.value) =
+    some ExOv.vGood := by
+  rw [C14_text_override_eq_edit_imports ExOv.conv ExOv.env ExOv.pkgs ExOv.schema none (ExOv.lines '1') ExOv.specsGood
+    ExOv.idem ExOv.atTop1 ExOv.ok1 ExOv.ovsGood_ok, ExOv.split_good, ExOv.tree1]
+  simp only [Cfg.toOption_ok, Option.bind_some]
+  rw [ExOv.edit_good]
+  exact ExOv.denote_good
+
+/-- **End to end**, from a schema DOCUMENT: for the schema object `S` of any document the schema loader accepts, any
+    datatype functions whose key types in use by `S` are idempotent, any text whose `%import`s are at top level and bring
+    well-formed components (`compsOK`: what the schema loader guarantees of a component it has parsed), any specifiers
+    whose section-selecting components are basic keys.  `schemaOK S` is discharged by C10. -/
+theorem C14_end_to_end_imports (eenv : Elab.Env) (fuel : Nat) (doc : Elab.Node) (S : Schema)
+    (hkey : ∀ (kt s r : Str), s ≠ [] → eenv.conv.key kt s = .ok r → r ≠ [])
+    (hS : Elab.elabSchema eenv fuel doc = .ok S)
+    (conv : Conv) (env : Env) (pkgs : Str → Pkg) (url : Option Str) (lines : List Str) (specs : List Str)
+    (hidem : KeyIdemOn conv S)
+    (htop : importsAtTop env url lines)
+    (hcomp : ∀ tops, treeOfI env url lines = .ok tops → compsOK pkgs S tops = true)
+    (hovs : ∀ ovs, specs.mapM addOption = .ok ovs → OvsOK ovs) :
+    (load conv env pkgs S url lines specs).toOption.map (·.value) =
+      (specs.mapM addOption).toOption.bind fun ovs =>
+        (treeOfI env url lines).toOption.bind fun tops =>
+          (editI conv S tops ovs).toOption.bind (denoteI conv S pkgs) :=
+  C14_text_override_eq_edit_imports conv env pkgs S url lines specs hidem htop
+    (fun tops ht => importsOK_of_compsOK pkgs tops S (ZCV.Props.C10.C10_elab_schemaOK eenv fuel doc S hkey hS) (hcomp tops ht))
+    hovs
+
+/-- the same with the stock datatype functions on both sides: the hypotheses left are about the text (`%import`s at top
+    level, of well-formed components) and the specifiers (`OvsOK`) -/
+theorem C14_end_to_end_imports_stock (eenv : Elab.Env) (fuel : Nat) (doc : Elab.Node) (S : Schema)
+    (hconv : eenv.conv = stockConv) (hS : Elab.elabSchema eenv fuel doc = .ok S)
+    (env : Env) (pkgs : Str → Pkg) (url : Option Str) (lines : List Str) (specs : List Str)
+    (htop : importsAtTop env url lines)
+    (hcomp : ∀ tops, treeOfI env url lines = .ok tops → compsOK pkgs S tops = true)
+    (hovs : ∀ ovs, specs.mapM addOption = .ok ovs → OvsOK ovs) :
+    (load stockConv env pkgs S url lines specs).toOption.map (·.value) =
+      (specs.mapM addOption).toOption.bind fun ovs =>
+        (treeOfI env url lines).toOption.bind fun tops =>
+          (editI stockConv S tops ovs).toOption.bind (denoteI stockConv S pkgs) :=
+  C14_end_to_end_imports eenv fuel doc S
+    (by intro kt s r hs hr; rw [hconv] at hr; exact Elab.stockConv_key_ne_nil kt s r hs hr) hS stockConv env pkgs url
+    lines specs (C14_keyIdemOn_stockConv S) htop hcomp hovs
 
 end ZCV.Props.C14
